@@ -555,7 +555,7 @@ func TestCheck(t *testing.T) {
 				for _, short := range shorts {
 					for _, n := range []int{lim + 1, lim + 2, lim * 3} {
 						for _, long := range []string{"1.2.3-" + strings.Repeat("a", n), "v1.2.3+" + strings.Repeat("b.", n/2) + "b", strings.Repeat("z", n), "1.2.3-" + strings.Repeat("é", n/2)} {
-							for _, c := range []Case{{Pkg: "sem", A: vkit.B(short), B: vkit.B(long), Limit: lim}, {Pkg: "sem", A: vkit.B(long), B: vkit.B(short), Limit: lim}} {
+							for _, c := range []Case{{Pkg: "sem", A: vkit.B(short), B: vkit.B(long), Limit: lim}, {Pkg: "sem", A: vkit.B(long), B: vkit.B(short), Limit: lim}, {Pkg: "sem", A: vkit.B(long), B: vkit.B(long), Limit: lim}} {
 								w.Guard(c, func() { otherCalls(c, w, lim) })
 								w.EvalRandom(vkit.Hash64("B6", string(c.A), string(c.B), strconv.Itoa(lim)), true)
 							}
